@@ -81,6 +81,11 @@ def run(res, args):
         for other in (1004, 1007, 1077, 0, 4095, 1006 if ty == 1005 else 1005):
             p = gen.payload_with_type(rng, other, 30)
             rej.append(("decode %d %s" % (ty, gen.make_frame(p).hex()), "wrongtype"))
+    # the decoder handed a frame cut at EVERY byte length, from nothing at all to one byte short of the fields
+    for ty in (1005, 1006):
+        full = gen.make_frame(gen.payload_with_type(rng, ty, 19 if ty == 1005 else 21))
+        for n in range(0, 3 + (19 if ty == 1005 else 21)):
+            rej.append(("decode %d %s" % (ty, gen.hx(full[:n])), "cut"))
     for c, tag in rej:
         cases.append(c)
         meta.append((None, None, tag))
